@@ -153,11 +153,11 @@ Inductive elsepart (PC : tree -> Prop) : list tree -> Prop :=
 | ep_nil : elsepart PC []
 | ep_else i b : mtok (pkw "else"%bs) i -> PC b -> elsepart PC [Kw i; Lst [PNone; b]].
 
-(* [else block] of the one-line form: an else branch without statements is dropped from the pairs *)
+(* [else block] of the one-line form: an else branch without statements (only `;`) is dropped from the pairs *)
 Inductive shortelse (PC : tree -> Prop) : list tree -> Prop :=
 | se_nil : shortelse PC []
 | se_else i b : mtok (pkw "else"%bs) i -> PC b -> shortelse PC [Kw i; Lst [PNone; b]]
-| se_dropped i b : mtok (pkw "else"%bs) i -> shortelse PC [Kw i; Hid b].
+| se_dropped i b : mtok (pkw "else"%bs) i -> PC b -> chunk_has_stats b = false -> shortelse PC [Kw i; Hid b].
 
 (* ------------------------------------------------------------------ kinds *)
 Inductive shaped : cat -> tree -> Prop :=
